@@ -68,7 +68,7 @@ def random_schedules(n, seed):
             elif x < 0.5:
                 cmds.append({"c": "op", "op": {"o": "put"}})
             elif x < 0.65 and started < 4:
-                cmds.append({"c": "op", "op": {"o": "consume", "c": started}})
+                cmds.append({"c": "op", "op": dict({"o": "consume", "c": started}, **({"nested": True} if i % 5 == 4 and rng.random() < 0.5 else {}))})
                 started += 1
             elif x < 0.72 and nj < 3:
                 cmds.append({"c": "op", "op": {"o": "join"}})
